@@ -2,12 +2,20 @@ PROP = dict(
     module="M3d.Props.C11",
     corr=dict(quick=300, thorough=1000),
     gen=["HierAxis", "Kernels"],
-    tie_modules=["M3d.Lemmas.KernelsTieHier"],
+    tie_modules=["M3d.Lemmas.KernelsTieHier", "M3d.Lemmas.KernelsTieProbe"],
     corr_theorems=(
         "M3d.C11.needs_repair_iff / needs_repair_iff_two_faces / inconsistent_edges_eq / edge_balanced_iff_clean (diag3, diagd3), "
         "singular_vertices_eq / singular_search_exact / fan_adjacency_is_shared_edge_at_vertex / singular_iff_clusters / fan_connected_no_singular_vertices / closed_manifold_diagnostics_clean (diag3 sv), clusters_partition (clus3), "
         "orientations_consistent / orientation_groups_are_components / orientations_consistent_whole_mesh / orientation_search_exact (rnm3 groups, diag3 or=), "
         "majority_minimal_flips / repair_normals_majority_consistent / repair_normals_majority_clean (rnm3), repair_normals_restores (rn3), repair_normals2_restores (rn2), "
+        "rn2 / rn3 THE PROBE POINT: repair_normals2_probe_is_epsilon_off_the_midpoint / repair_normals3_probe_is_epsilon_off_the_centroid (center + epsilon * unit normal lies at distance exactly epsilon, on the normal's side, whatever the size of the face), "
+        "repair_normals2_unnormalised_probe_is_epsilon_times_length_off (without Normalize the point is epsilon*|s| away), probe_parity_constant_within_clearance / repair_normals2_offset_irrelevant_within_clearance / "
+        "repair_normals2_ray_offset_irrelevant_within_clearance / repair_normals3_offset_irrelevant_within_clearance (between two points of the normal line the even-odd answer changes only where the mesh crosses the line: "
+        "every probe inside the clearance of its face gives the same RepairNormals - so the driver may evaluate the exact even-odd rule at the rational point at distance eps*|n|_2/|n|_1 <= eps and demand the same flip set from the source, "
+        "after checking exactly that nothing touches the normal line up to eps*65/64), repair_normals2_documented_probe_within_clearance (that instance spelled out, l1_offset_le), repair_normals2_restores_within_clearance (geometric form of the restore theorem: "
+        "the mirror probes of a segment and of its reversal get opposite answers when the segment itself is the only crossing of its normal line within the clearance on both sides, so any re-orientation of an outward-oriented mesh is undone), "
+        "repair_normals2_unnormalised_probe_unsound (1000 x 1 plate, eps = 1/100: the source's probe restores the plate, the un-normalised probe keeps the long sides reversed - the seeded change C11-11 at model level); "
+        "KernelsTieProbe: segMid / segLeft / segNormal / probeDoc / triCross / triNormal / probeDoc3 ARE the regenerated Segment.Mid / Segment.Normal / Triangle.crossProduct / Triangle.Normal composed as in RepairNormals; "
         "repair_merges_classes (rep3, rep2), components_partition / hierarchy_partition / hierarchy_nodes_are_components / hierarchy_probe_independent / "
         "hierarchy2_partition (hier2 full=: on closed oriented curves the 2-D loop tracer never panics and FullMesh is a permutation of the segments, every oracle) / "
         "hierarchy_nesting / hierarchy_contains_eq_evenodd / hierarchy_sweep_order_from_key / hierarchy_nesting_of_sweep_key (hier3, hier2: parent = deepest exact encloser, ancestors = all enclosers, Contains = exact even-odd of the whole mesh; "
@@ -40,13 +48,18 @@ PROP = dict(
         "scaled by 2^-1..2^-3, the long axis cycling x,y,z), slab 1/8, independent scales 1/8 - with the query points mapped along, so that inner components start anywhere relative to the corners of their "
         "enclosers' bounding boxes along the sweep axis (counted: hier3:bbox-nested-pairs-inner-starts-beyond-max-corner-of-outer, ...-beyond-second-furthest-corner..., hier3-xform:*); fixed: the 12 demo nests as "
         "needles along x/y/z under 12 signed permutations and 24 corner needles (a needle along each axis with two voids in opposite corners of its bounding box, all 8 corner pairs); 2-D: nested polygons, circles, figure-eights, polylines with reversed/duplicated/removed/degenerate segments; "
+        "RepairNormals (rn2, rn3): the scene is MEASURED first (clearance = the smallest distance, over all faces and both sides, from the centre of a face along its normal line to the next touch of the mesh - closed test, in float with a tolerance that only adds touches; the driver repeats it exactly) "
+        "and epsilon is clearance/2, /4 * 13/16, /16, /256, a float32 decimal below clearance/3, or one of the old absolute values when it fits; scenes: circles, nested rectangles, polyomino nests (thin followers in the material of thick shapes), and THIN SHAPES WITH LONG SIDES - plates whose sides are cut into unequal pieces, thin-walled frames, "
+        "onions of 2-5 loops with walls and gaps of 1-12 units, slivers (long base, low chain above it), bent strips of slanted pieces, two plates with a narrow gap (lengths 8..1000, thickness 1/8..2, log-uniform) - and in 3-D slabs (two huge triangles per face or cut into cells), thin-walled hollow boxes, onions of boxes, stacked plates, next to the nests / icospheres / tori / lattice solids, "
+        "all under the axis-aligned affine maps above (needles, slabs, power-of-two scales); re-orientation: none, random subset, every second face, all, whole components, only the longest / largest faces; counted: rn2:segments-with-eps*length>clearance (about a third of all segments; 36 of 43 cases at seed 1), rn3:faces-with-eps*2area>clearance; "
+        "24 fixed rn2 cases: the demo nests as they are and as needles, all / every second segment reversed, epsilon = clearance/2 and /8; "
         "HISTORIES (hist3, hist2): one mesh object, initial soup = closed manifold (1/2) / empty / damaged as above, in half of the cases plus 1-2 DOUBLE-COVERED TRIANGLES (two faces on the same three vertices, opposite or equal "
         "orientation, 0-2 corners shared with the rest), then 0-8 steps: Remove a face, Add a removed pointer again, undo the last change, Add a reversed / equal copy of a face, a fin, a random triangle, a double cover in two halves with a call in "
-        "between, empty the mesh face by face and refill it in another order, no-op Add/Remove, m = m.Copy(), calls that build the vertex index (SingularVertices, Find, Neighbors, VertexSlice, Repair, Orientable) or do not "
+        "between, empty the mesh face by face and refill it in another order, no-op Add/Remove, ADDMESH OF A SHALLOW COPY (an optional index-building call, then Add of every present face pointer / a component / a random subset AGAIN, then mostly Remove of a component or one of them, observations; counted: hist3:add-of-a-pointer-already-in-the-mesh-with-index-cached), m = m.Copy(), calls that build the vertex index (SingularVertices, Find, Neighbors, VertexSlice, Repair, Orientable) or do not "
         "(NeedsRepair, InconsistentEdges, Iterate), and observations nr / sv / ie / or / gate (MeshToHierarchy refuses the mesh) in random order after 35% of the steps and at the end; the op line carries the steps and whether the index "
         "existed after each call (hook VerifMeshHasIndex); counted: hist3:nr-observed-with-index-cached(-on-closed-mesh-with-a-2-fan-vertex), ...-without-index; 2-D: segments split, digons and triangles added, Manifold / "
         "InconsistentVertices / the MeshToHierarchy gate observed; fixed histories: the double cover alone before/after each index-building call, next to and touching a tetrahedron, grown face by face on an index built for the "
-        "empty mesh, a tetrahedron emptied and refilled, opened and closed with the index cached; diag3 / diagd3 call the four diagnostics in the declaration order (1/2) or a random order (recorded in section O), the fixed inputs in both; "
+        "empty mesh, a tetrahedron emptied and refilled, opened and closed with the index cached, two tetrahedra touching in a vertex whose pointers are all added again (index built by SingularVertices / VertexSlice / not at all) before one of them is removed; diag3 / diagd3 call the four diagnostics in the declaration order (1/2) or a random order (recorded in section O), the fixed inputs in both; "
         "plus a fixed list of edge cases; distinct = distinct operation lines"
     ),
     trusted=[
@@ -54,6 +67,9 @@ PROP = dict(
         "face pointers as list positions; Repair's hashToClass map as 'the live class holding the hash' (no stale entries: every hash of a merged class is re-pointed)",
         "oracles: Solid.Contains / ColliderSolid ray parity are parameters of the models (C07 covers colliders); the harness compares them against exact "
         "rational even-odd ray casting in Lean on every rn3/rn2/hier3/hier2 case",
+        "RepairNormals probe: the clearance theorems count the even-odd rule ALONG THE NORMAL (the ray the documentation of RepairNormals names; 2-D with the half-open side rule, 3-D for normal lines that meet no edge); that ColliderSolid.Contains, which counts along one fixed direction, "
+        "gives the same parity on the clear stretch is the hypothesis hdir of repair_normals2_offset_irrelevant_within_clearance / repair_normals2_restores_within_clearance (direction independence = the collider's correctness, C07) - the driver compares the two counts exactly on every rn2 case and on every rn3 face whose normal line is in general position (MODELDIFF:ray-direction); "
+        "sqrt is an exact square root in the theorems and Float.sqrt in the source (the probe of the source is within rounding of distance epsilon; the driver demands a clear stretch of eps*65/64)",
         "the sweep-order hypothesis of hierarchy_nesting (a component is swept after every component enclosing it) is derived (hierarchy_sweep_order_from_key) from: vertices "
         "visited by non-decreasing key, and an encloser has a vertex with a smaller key than every vertex of the enclosed component; that last, geometric, fact (enclosed => strictly inside the "
         "convex hull of the encloser's vertices; hull_point_not_before_all is its linear half) is an assumption, checked by the driver on every hier3 case (MODELDIFF:sweep-key)",
@@ -80,13 +96,13 @@ PROP = dict(
         "ancestor <-> encloses and Contains = parity of containing components; the sweep compatibility follows from sorting by a key under which every encloser starts first; "
         "a cheap test in front of the root-level containment call is harmless iff it never rejects an encloser - true for the bounding-box corner furthest along the axis, for Max() only "
         "when the axis has no negative component (2-D yes, 3-D no); 2-D Manifold/InconsistentVertices "
-        "<-> Surface.InOutOne; 2-D RepairNormals restores what its oracle reports; the three 3-D diagnostics are all clean iff the mesh is a closed oriented manifold (every link one cycle - both directions proved); "
+        "<-> Surface.InOutOne; 2-D RepairNormals restores what its oracle reports; the probe of RepairNormals (2-D and 3-D) lies at distance exactly epsilon from the centre of the face whatever its size, any two probes inside the clearance of a face give the same answer, and with clearance on both sides every re-orientation of an outward-oriented 2-D mesh is undone (a probe without normalisation is epsilon*|face| away and fails on the 1000 x 1 plate); the three 3-D diagnostics are all clean iff the mesh is a closed oriented manifold (every link one cycle - both directions proved); "
         "on a mesh with a history (Add, Remove, Copy, lazily built and incrementally maintained vertex index) the index describes the current face set after every history, NeedsRepair / SingularVertices / 2-D Manifold answer as their definitions on the "
         "current faces whatever the history and whether or not the index is cached, and a shortcut in NeedsRepair that reads the cached index is sound for 'some vertex has < 2 triangles' but not for '< 3' (double-covered triangle). Tie: the real diagnostics, repairs and hierarchies on damaged meshes are diffed against the definitions evaluated in Lean "
         "(exact rational even-odd), with the faithful models run alongside."
     ),
     level_note=(
-        "Proved about the models in lean/M3d/Model/MeshDiag.lean, MeshDiagSweep.lean and MeshDiagHist.lean; models tied to /repo by correspondence (13 kinds, 3-D and 2-D), the regenerated sweep axes (Gen/HierAxis.lean) and the regenerated Dot (KernelsTieHier). Trusted: Lean kernel, "
+        "Proved about the models in lean/M3d/Model/MeshDiag.lean, MeshDiagSweep.lean and MeshDiagHist.lean; models tied to /repo by correspondence (13 kinds, 3-D and 2-D), the regenerated sweep axes (Gen/HierAxis.lean), the regenerated Dot (KernelsTieHier) and the regenerated Segment.Mid / Segment.Normal / Triangle.Normal (KernelsTieProbe). Trusted: Lean kernel, "
         "propext/Classical.choice/Quot.sound, Go harness + Lean driver, the abstractions listed under trusted. One defect found and fixed (5660fd7: "
         "SingularVertices never joined coincident triangles)."
     ),
